@@ -92,6 +92,25 @@ type Spec struct {
 	Root      []byte // state root override (default: derived from number and signer)
 }
 
+// IndexOf returns the universe index of a validator address (-1 if it is not one of the harness's keys).
+func IndexOf(addr []byte) int {
+	for i, a := range addrs {
+		if bytes.Equal(a[:], addr) {
+			return i
+		}
+	}
+	return -1
+}
+
+// SortedAddrs returns the addresses of the given keys in the order the client keeps them.
+func SortedAddrs(idx []int) [][]byte {
+	var out [][]byte
+	for _, a := range sortedAddrs(idx) {
+		out = append(out, append([]byte{}, a[:]...))
+	}
+	return out
+}
+
 func sortedAddrs(idx []int) []common.Address {
 	var out []common.Address
 	for _, i := range idx {
